@@ -1964,13 +1964,11 @@ matrix_rem_generic(PyObject *self, PyObject *other, int inplace)
     return (PyObject *)ret;
   }
   else {
-    void *ptr = convert_mtx_alloc((matrix *)self, id);
-    if (!ptr) return PyErr_NoMemory();
+    if (id != id_self) PY_ERR_TYPE("invalid inplace operation");
 
-    int lgt = MAT_LGT(self);
-    if (mtx_rem[id](ptr,n,lgt)) { free(ptr); return NULL; }
+    if (mtx_rem[id](MAT_BUF(self), n, MAT_LGT(self)))
+      return NULL;
 
-    free_convert_mtx_alloc(self, ptr, id);
     Py_INCREF(self);
     return self;
   }
